@@ -91,6 +91,13 @@ func contractServes(fc *FuncContract, prop string) bool {
 			return true
 		}
 	}
+	for _, cs := range fc.Invariants {
+		for _, c := range cs {
+			if hasProp(c.Props, prop) {
+				return true
+			}
+		}
+	}
 	return false
 }
 
@@ -383,12 +390,24 @@ func cmdCheck(args []string) int {
 		exit = 2
 	}
 	var standins []map[string]any
-	if *tier == "thorough" && exit == 0 {
-		// bounded stand-ins / executable contracts on the real code
-		standins = runStandins(reg, pr, *prop, wd)
+	if exit == 0 {
+		// bounded stand-ins / executable contracts on the real code: all of them in the thorough tier, in the quick tier
+		// only those registered as `quick` (they stand in for code outside the verified subset)
+		standins = runStandins(reg, pr, *prop, wd, *tier != "thorough")
 		for _, s := range standins {
 			if br, _ := s["adapter_broken"].(bool); br {
-				exit = 2
+				// an adapter that does not build or crashes (e.g. after a refactoring of the code it exercises) decides
+				// nothing: a machinery failure in the thorough tier, a printed note in the quick tier
+				if *tier == "thorough" {
+					exit = 2
+				}
+			}
+			if kn, _ := s["known_finding_inputs"].(int); kn > 0 {
+				for _, k := range kfs {
+					if k.Property == *prop && k.Status == "known" && k.Excuse == "" && strings.HasPrefix(k.Obligation, fmt.Sprint(s["function"])+"#") {
+						fmt.Printf("KNOWN-FINDING: property=%s %s %s\n", *prop, k.Obligation, k.What)
+					}
+				}
 			}
 			if f, _ := s["failed"].(bool); f {
 				os.MkdirAll(replayDir, 0o755)
@@ -399,6 +418,8 @@ func cmdCheck(args []string) int {
 				exit = 1
 			}
 		}
+	}
+	if *tier == "thorough" && exit == 0 {
 		// must-fail corpus
 		if rc := runMutantsFor(*prop, wd); rc != 0 {
 			exit = 2
